@@ -61,7 +61,7 @@ struct Config {
     uint8_t puback_rc = 0, pubrec_rc = 0, pubcomp_rc = 0;
     bool ack_props = false;                   // attach reason string + user property to acks
     std::vector<std::vector<uint8_t>> suback_script, unsuback_script;   // literal reason codes for the n-th (UN)SUBSCRIBE seen
-    bool pingresp = true; bool hold_publish_acks = false;   // never acknowledge client PUBLISHes (slow broker)
+    bool pingresp = true; bool hold_publish_acks = false; int hold_acks_first_conns = 0;   // > 0: only the first N connections are slow   // never acknowledge client PUBLISHes (slow broker)
     std::string auth_method; int auth_rounds = 0; bool auth_wrong_method = false;
     std::vector<uint8_t> connack_rc_script;   // reason code for the n-th CONNECT (0 = success) - scenario-driven refusals
     Hostile hostile;
